@@ -39,6 +39,13 @@ func OutDir() string   { return envOr("VERIF_OUT", filepath.Join(VerifDir(), "ou
 func Tier() string     { return envOr("VERIF_TIER", "quick") }
 func Thorough() bool   { return Tier() == "thorough" }
 func Shard() int       { n, _ := strconv.Atoi(envOr("VERIF_SHARD", "0")); return n }
+
+// shardFile is the unique index used in output file names (a check may consist of several test
+// units, each with its own local shard numbering).
+func shardFile() int {
+	n, _ := strconv.Atoi(envOr("VERIF_SHARD_FILE", envOr("VERIF_SHARD", "0")))
+	return n
+}
 func Shards() int {
 	n, _ := strconv.Atoi(envOr("VERIF_SHARDS", "1"))
 	if n < 1 {
@@ -117,6 +124,7 @@ type Rec struct {
 	bestLen    map[string]int
 	rule       string
 	exhaustive bool
+	test       string
 }
 
 type violation struct {
@@ -143,12 +151,12 @@ func Get(id string) *Rec {
 
 const maxHashes = 4_000_000
 
-func (r *Rec) SetRule(s string)                  { r.mu.Lock(); r.rule = s; r.mu.Unlock() }
-func (r *Rec) SetExhaustive(b bool)              { r.mu.Lock(); r.exhaustive = b; r.mu.Unlock() }
-func (r *Rec) Extra(k string, v interface{})     { r.mu.Lock(); r.extra[k] = v; r.mu.Unlock() }
-func (r *Rec) AddLabel(l string, n int)          { r.mu.Lock(); r.labels[l] += n; r.mu.Unlock() }
-func (r *Rec) CountOnly(n int)                   { r.mu.Lock(); r.evals += n; r.mu.Unlock() }
-func (r *Rec) Evaluations() int                  { r.mu.Lock(); defer r.mu.Unlock(); return r.evals }
+func (r *Rec) SetRule(s string)              { r.mu.Lock(); r.rule = s; r.mu.Unlock() }
+func (r *Rec) SetExhaustive(b bool)          { r.mu.Lock(); r.exhaustive = b; r.mu.Unlock() }
+func (r *Rec) Extra(k string, v interface{}) { r.mu.Lock(); r.extra[k] = v; r.mu.Unlock() }
+func (r *Rec) AddLabel(l string, n int)      { r.mu.Lock(); r.labels[l] += n; r.mu.Unlock() }
+func (r *Rec) CountOnly(n int)               { r.mu.Lock(); r.evals += n; r.mu.Unlock() }
+func (r *Rec) Evaluations() int              { r.mu.Lock(); defer r.mu.Unlock(); return r.evals }
 func (r *Rec) record(c *Ctx, enc []byte) {
 	r.mu.Lock()
 	defer r.mu.Unlock()
@@ -195,13 +203,13 @@ func (r *Rec) Flush() {
 	for i, h := range hs {
 		binary.LittleEndian.PutUint64(hb[8*i:], h)
 	}
-	base := filepath.Join(dir, fmt.Sprintf("%s.%d", r.ID, Shard()))
+	base := filepath.Join(dir, fmt.Sprintf("%s.%d", r.ID, shardFile()))
 	os.WriteFile(base+".hashes", hb, 0o644)
 	if len(r.samples) == 0 {
 		r.samples = nil
 	}
 	out := map[string]interface{}{
-		"property_id": r.ID, "shard": Shard(), "evaluations": r.evals, "distinct_nontrivial": len(hs),
+		"property_id": r.ID, "shard": shardFile(), "test": r.test, "evaluations": r.evals, "distinct_nontrivial": len(hs),
 		"hashes_capped": r.capped, "labels": r.labels, "samples": r.samples, "known": r.known,
 		"violations": r.viol, "extra": r.extra, "wall_s": time.Since(r.start).Seconds(), "rule": r.rule,
 		"exhaustive": r.exhaustive,
@@ -240,8 +248,8 @@ type Ctx struct {
 
 type failSentinel struct{}
 
-func (c *Ctx) Label(l string)  { c.labels = append(c.labels, l) }
-func (c *Ctx) NonTrivial()     { c.nontrivial = true }
+func (c *Ctx) Label(l string)     { c.labels = append(c.labels, l) }
+func (c *Ctx) NonTrivial()        { c.nontrivial = true }
 func (c *Ctx) IsNonTrivial() bool { return c.nontrivial }
 
 // Failf records an oracle failure for the current case and unwinds to the driver.
@@ -325,6 +333,7 @@ func runOne[C any](id string, c C, run func(*Ctx, C), replaying bool) (ctx *Ctx)
 
 type replayFile struct {
 	Property string          `json:"property"`
+	Test     string          `json:"test,omitempty"`
 	Msg      string          `json:"msg"`
 	Case     json.RawMessage `json:"case"`
 }
@@ -332,14 +341,14 @@ type replayFile struct {
 func (r *Rec) saveViolation(enc []byte, msg string) string {
 	dir := filepath.Join(envOr("VERIF_REPLAY_DIR", filepath.Join(VerifDir(), "out", "replays")), r.ID)
 	os.MkdirAll(dir, 0o755)
-	path := filepath.Join(dir, fmt.Sprintf("shard%d-%s.json", Shard(), Tier()))
+	path := filepath.Join(dir, fmt.Sprintf("shard%d-%s.json", shardFile(), Tier()))
 	r.mu.Lock()
 	defer r.mu.Unlock()
 	if best, ok := r.bestLen[path]; ok && len(enc) > best {
 		return path
 	}
 	r.bestLen[path] = len(enc)
-	b, _ := json.MarshalIndent(replayFile{Property: r.ID, Msg: msg, Case: enc}, "", " ")
+	b, _ := json.MarshalIndent(replayFile{Property: r.ID, Test: r.test, Msg: msg, Case: enc}, "", " ")
 	os.WriteFile(path, b, 0o644)
 	found := false
 	for i := range r.viol {
@@ -359,12 +368,15 @@ func (r *Rec) saveViolation(enc []byte, msg string) string {
 func Drive[C any](t *testing.T, id string, rule string, gen func(*rapid.T) C, run func(*Ctx, C)) {
 	rec := Get(id)
 	rec.SetRule(rule)
+	rec.mu.Lock()
+	rec.test = t.Name()
+	rec.mu.Unlock()
 	if p := os.Getenv("VERIF_REPLAY"); p != "" {
 		replayPath(t, rec, p, run, true)
 		return
 	}
 	if Shard() == 0 {
-		files, _ := filepath.Glob(filepath.Join(VerifDir(), "regress", id, "*.json"))
+		files, _ := filepath.Glob(filepath.Join(VerifDir(), "regress", id+os.Getenv("VERIF_REGRESS_SUFFIX"), "*.json"))
 		sort.Strings(files)
 		for _, f := range files {
 			replayPath(t, rec, f, run, false)
